@@ -68,7 +68,15 @@ def run(tier, seed, t0):
         if bad:
             raise C.Violation(PROP, "completion matching is not byte-for-byte", "%s\nsession: %s\nobserved: %s\nreference: %s\nreplay: harness client %d %d" % (bad, sess[:600], obs[:600], ref[:600], seed, nsess), True)
     if not proof["ok"]:
-        raise C.Violation(PROP, proof["failure"], "search: %d consecutive tags and %d sessions with look-alike completions satisfy the property's oracle" % (n, nsess), False)
+        # a proof obligation broke (e.g. the generator's source is no longer the modelled text): look further for a
+        # failing history before reporting -- a long run of consecutive commands through the real client
+        n_long = 200000
+        rc, impl_long = C.run_harness(["tags", str(n_long)], timeout=1800)
+        long_tags = impl_long.split()
+        bad = oracle(long_tags)
+        if bad:
+            raise C.Violation(PROP, "the real client issued an invalid or repeated tag", bad + "\n(first proof failure: %s)\nreplay: harness tags %d" % (proof["failure"][:300], n_long), True)
+        raise C.Violation(PROP, proof["failure"], "search: %d consecutive tags (and a longer run of %d) and %d sessions with look-alike completions satisfy the property's oracle" % (n, len(long_tags), nsess), False)
     okd, outd = C.build_driver()
     if not okd:
         raise RuntimeError("driver build failed:\n" + outd[-3000:])
